@@ -195,3 +195,50 @@ func VerifC18_KNearest_3_2() { verifC18KNearest(3, 2) }
 func VerifC18_KNearest_3_1() { verifC18KNearest(3, 1) }
 func VerifC18_KNearest_4_2() { verifC18KNearest(4, 2) }
 func VerifC18_KNearest_4_3() { verifC18KNearest(4, 3) }
+
+// Push sequences with a repeated key: a key already held is pushed again into a full container, then a
+// further element arrives. The container still holds exactly the K nearest of what was pushed.
+func VerifC18_KNearestRepush() {
+	var target int160.T
+	const k = 2
+	c := k_nearest_nodes.New(target, k)
+	// three keys at arbitrary distances 0..255 from the target (ties included), distinct addresses
+	mk := func(addr string) k_nearest_nodes.Key {
+		var key k_nearest_nodes.Key
+		key.ID[19] = verifNondetU8()
+		key.Addr = krpc.NodeAddrPort{AddrPort: netip.MustParseAddrPort(addr)}
+		return key
+	}
+	a, b, d := mk("10.0.0.1:1"), mk("10.0.0.2:1"), mk("10.0.0.3:1")
+	seq := []k_nearest_nodes.Key{a, b}
+	// the repeated key: a or b, whichever the run chooses
+	if verifNondetBool() {
+		seq = append(seq, a)
+	} else {
+		seq = append(seq, b)
+	}
+	seq = append(seq, d)
+	for i, key := range seq {
+		c = c.Push(k_nearest_nodes.Elem{Key: key, Data: i})
+		if i >= 1 {
+			verifAssert(c.Len() == k && c.Full(), "C18 knearest: re-pushing a held key leaves K elements")
+		}
+	}
+	var got []k_nearest_nodes.Key
+	c.Range(func(e k_nearest_nodes.Elem) { got = append(got, e.Key) })
+	verifAssert(len(got) == k, "C18 knearest: exactly K retained")
+	for _, key := range []k_nearest_nodes.Key{a, b, d} {
+		kept := false
+		for _, g := range got {
+			if g == key {
+				kept = true
+			}
+		}
+		if !kept {
+			for _, g := range got {
+				verifAssert(!refDistLess(key.ID.Int160(), g.ID.Int160(), target), "C18 knearest: no dropped element is closer than a retained one")
+			}
+		}
+	}
+	verifReach("end")
+}
